@@ -276,11 +276,14 @@ def marker_paths(doc, markers):
     return found
 
 
-def run_one(text, src, R, F, suppress=None):
+def run_one(text, src, R, F, suppress=None, as_int=False):
     from docutils import nodes
 
     settings = {"raw_enabled": R, "file_insertion_enabled": F, "myst_enable_extensions": EXTS,
                 "myst_footnote_sort": False}
+    if as_int:
+        # docutils' own defaults for the two switches are the integers 1 / 0 (its option parser stores those)
+        settings["raw_enabled"], settings["file_insertion_enabled"] = int(R), int(F)
     if suppress:
         # the security switches are docutils', not MyST warnings: silencing MyST's warnings switches nothing back on
         settings["myst_suppress_warnings"] = list(suppress)
@@ -307,7 +310,7 @@ def check_case(acc, case, pc=None) -> list[dict]:
         for R in (True, False):
             for F in (True, False):
                 try:
-                    results[(R, F)] = run_one(text, src, R, F, case.get("suppress"))
+                    results[(R, F)] = run_one(text, src, R, F, case.get("suppress"), bool(case.get("as_int")))
                 except Exception as exc:  # noqa: BLE001
                     vs.append(mk(f"C20:render-raises:{type(exc).__name__}", case, "document",
                                  f"raw_enabled={R} file_insertion_enabled={F}: {type(exc).__name__}: {exc}"))
@@ -445,6 +448,8 @@ def case_st(draw):
     sup = draw(st.sampled_from([None, None, ["myst"], ["myst.*"], ["myst.raw", "myst.strikethrough"], ["docutils", "ref"]]))
     if sup:
         case["suppress"] = sup
+    if draw(st.integers(0, 2)) == 0:
+        case["as_int"] = True
     return case
 
 
